@@ -209,6 +209,41 @@ def _gen(tier, rng):
                     ops.append(O("show", n=1, i=i + 1))
             ops.append(O("close", n=1))
             hs.append(("random", ops, ""))
+    # (d1b) PUT and GET interleaved, record numbers next to each other, GETs beyond the end of the file in between (what a
+    # GET beyond the end leaves behind must not move the next PUT / GET)
+    for ws in ([4], [2, 2]):
+        ln = sum(ws)
+        for _ in range(200 if tier == "thorough" else 40):
+            ops = [O("open", n=1, name="C", mode="random", len=ln), O("field", n=1, ws=ws)]
+            r = rng.randint(1, 2)
+            for _ in range(rng.randint(4, 9)):
+                if rng.random() < 0.5:
+                    for i in range(len(ws)):
+                        ops.append(O("lset", n=1, i=i + 1, text=S(rng.choice(["AAAA", "bb", "CCCCCC", "d"]))))
+                    ops.append(O("put", n=1, r=r))
+                else:
+                    ops.append(O("get", n=1, r=r))
+                    for i in range(len(ws)):
+                        ops.append(O("show", n=1, i=i + 1))
+                r = max(1, r + rng.choice([1, 1, 1, 0, -1, 2]))
+            for q in range(1, 6):
+                ops.append(O("get", n=1, r=q))
+                ops.append(O("show", n=1, i=1))
+            ops.append(O("close", n=1))
+            hs.append(("random-mixed", ops, ""))
+    # (d1c) record numbers beyond 32767 (one- and two-byte records keep the file small)
+    for ln in ((1, 2) if tier == "thorough" else (1,)):
+        for _ in range(12 if tier == "thorough" else 2):
+            ops = [O("open", n=1, name="C", mode="random", len=ln), O("field", n=1, ws=[ln])]
+            rs = rng.sample([1, 2, 32766, 32767, 32768, 32769, 40000, 65535, 65536] if tier == "thorough" else [1, 32767, 32768, 32769, 32770], 4)
+            for k, r in enumerate(rs):
+                ops.append(O("lset", n=1, i=1, text=S("abcdefgh"[k] * ln)))
+                ops.append(O("put", n=1, r=r))
+            for r in rs + [rng.choice([3, 32771, 50000] if tier == "thorough" else [3, 32771])]:
+                ops.append(O("get", n=1, r=r))
+                ops.append(O("show", n=1, i=1))
+            ops.append(O("close", n=1))
+            hs.append(("random-far", ops, ""))
     # (d2) FIELD lists that describe only the beginning of the record; record numbers far apart
     for ws, ln in (([4, 4], 16), ([3], 8), ([2, 5], 9), ([1, 1, 1], 7)):
         for _ in range(120 if tier == "thorough" else 20):
